@@ -131,6 +131,20 @@ func c11Check(c *mc.Ctx, cm *c11Commit, ref *c11Ref, s, cc, b int, scenario stri
 		return
 	}
 	defer r.Close()
+	// what the first restart wrote while reconciling the stores must itself be a state the
+	// node can start from: restart once more
+	func() {
+		defer func() {
+			if p := recover(); p != nil {
+				err = fmt.Errorf("panic: %v", p)
+			}
+		}()
+		err = r.Reopen()
+	}()
+	if err != nil {
+		bad("second-restart-fails|"+c11ErrClass(err), "the ledger opened once after the crash but not a second time: %v", err)
+		return
+	}
 	meta := r.L.GetChainMeta()
 	if meta.Height != h-1 && meta.Height != h {
 		bad("height-out-of-range", "opened at height %d", meta.Height)
@@ -530,6 +544,13 @@ func c11Genesis(c *mc.Ctx, cm *c11Commit, ref *c11Ref, s, cc, b int) {
 			}
 		}()
 		r, err = sn.Restore()
+		if err == nil {
+			// what the first restart wrote while reconciling must itself be a startable state
+			if e2 := r.Reopen(); e2 != nil {
+				err = fmt.Errorf("second restart: %v", e2)
+				return
+			}
+		}
 		if err == nil {
 			if nb, _ := r.BF.Blocks(); nb > 0 && r.L.GetChainMeta().Height == 0 {
 				// genesis would append block 1 to a blockfile that already holds it: the
